@@ -97,7 +97,7 @@ class MultiformOperator(QubitOperator):
         int_op = qubit_to_integer(qubit_op, n_qubits)
         bin_op = integer_to_binary(int_op)
 
-        return cls(qubit_op.terms, n_qubits, factors, int_op, bin_op)
+        return cls(qubit_op.terms.copy(), n_qubits, factors, int_op, bin_op)
 
     @classmethod
     def from_integerop(cls, int_op, factors):
